@@ -5,6 +5,8 @@ EXTENDS LightAvail, Json
 
 \* exhaustive runs: coordinates, callers and heights are interchangeable (model values)
 Sym == Permutations(Coords) \cup Permutations(Callers) \cup Permutations(Heights)
+\* with an empty and an outside-window height the heights are no longer interchangeable
+SymCC == Permutations(Coords) \cup Permutations(Callers)
 
 \* listed as INVARIANT in the simulation configuration (integer constants, RecordHist = TRUE):
 \* prints the stimuli of every finished behaviour (all calls made and returned); always TRUE
